@@ -58,6 +58,12 @@ class Walker:
 
     def fail(self, prop, kind, msg):
         self.fails.append("%s/%s: %s" % (prop, kind, msg))
+        if prop == "C02" and kind.startswith("missed"):
+            # an enabled source that goes silent right after another source was disabled / enabled / updated was disturbed by
+            # that operation (C07, last clause)
+            lt = getattr(self, "last_toggle", None)
+            if lt is not None and self.disp_no - lt[0] <= 1 and ("source %d " % lt[1]) not in msg and ("timer %d " % lt[1]) not in msg:
+                self.fails.append("C07/disturbed-other: %s - right after disable/enable/update of source %d (dispatch %d)" % (msg, lt[1], lt[0]))
 
     # ---------------------------------------------------------------- silent actions
     def fd_write(self, fd, v):
@@ -176,6 +182,8 @@ class Walker:
             return
         self.touched.add(h)
         insider = (self.cur == h)
+        if op in (3, 4, 5) and res == 0:
+            self.last_toggle = (self.disp_no, h)
         if op == 1:
             if res == 0:
                 self.live.add(h)
@@ -617,6 +625,8 @@ class Walker:
             elif kind == "ping" and sp:
                 if snap["pingc"].get(int(sp[3]), 0) > 0:
                     self.fail("C02", "missed-ping", "ping source %d had an unconsumed ping when the dispatch polled but was not called" % h)
+                    self.fail("C03", "lost-ping", "a ping() on source %d returned before this dispatch polled, the source is inserted and enabled, "
+                              "and the dispatch returned Ok without calling it back" % h)
             elif kind == "chan" and sp:
                 n, senders, closed = snap["chan"].get(int(sp[3]), (0, 1, False))
                 if (n > 0 or (senders == 0 and not closed)):
